@@ -204,7 +204,7 @@ pub fn check_reads<T: ReadTxn>(txn: &T, roots: &Roots, kind: OffsetKind, st: &mu
             Out::YArray(a) => array_reads(txn, a, &at)?,
             Out::YMap(m) => map_reads(txn, m, &at)?,
             Out::YXmlFragment(f) => {
-                let children = xml_children_reads(txn, f, if tg.path.len() > 1 { Some(AsRef::<yrs::branch::Branch>::as_ref(f).id()) } else { None }, &at)?;
+                let children = xml_children_reads(txn, f, Some(AsRef::<yrs::branch::Branch>::as_ref(f).id()), &at)?;
                 let expect: String = children.iter().map(|c| xml_out_string(txn, c)).collect();
                 ensure!(f.get_string(txn) == expect, "c17/xml/rendering", "{}: fragment renders {:?}, children render {:?}", at, f.get_string(txn), expect);
             }
